@@ -32,6 +32,14 @@ NOTES = {
  'C17-D': 'missed at first; pool pairs with equal document class and different package lists added',
  'C18-C': 'missed at first; left-over LT-SKIP-END marker in front of a complete skip region',
  'C18-D': 'missed at first; removed environments (lstlisting, tikzpicture with inner environments) added as hidden contexts after fix F2',
+ 'C01-E': 'missed at first; \\LTinput of a file with a language switch far behind the length of the main text added to the soup',
+ 'C02-E': 'missed at first; every fourth document now runs without biblatex (built-in \\cite with \\verb in its note)',
+ 'C02-F': 'not seen by C02; caught by C11 after \\text parts wrapped in macro arguments were added',
+ 'C03-E': 'missed at first; control word directly followed by a word starting with a non-ASCII letter (the renderer no longer separates them)',
+ 'C03-F': 'missed at first; glossary entry containing a control word, used through \\GLS',
+ 'C04-E': 'missed at first; heading inside the body of a user macro',
+ 'C08-F': 'missed at first; well-formed accent forms on dotless i / j must stay silent',
+ 'C10-F': 'missed at first; formulas ending in \\dots / \\ldots / \\cdots',
  'C20-C': 'missed at first; shell sample also run with --multi-language and language-change placeholders',
 }
 rows = []
@@ -41,7 +49,7 @@ for d in sorted(glob.glob('/verif/seeded/*')):
     notes = re.sub(r'\s+', ' ', open(d + '/notes.md', encoding='utf-8').read().strip())
     short = (notes[:230].rsplit(' ', 1)[0] + ' ...').replace('|', '\\|')
     meta['strengthening'] = NOTES.get(sid, 'caught by the check as first built')
-    meta['round'] = 2 if sid[-1] in 'CD' else 1
+    meta['round'] = 3 if sid[-1] in 'EF' else (2 if sid[-1] in 'CD' else 1)
     json.dump(meta, open(d + '/meta.json', 'w'), indent=1, ensure_ascii=False)
     det = ', '.join(meta['detected_by_checks']) + (', C04' if sid == 'C01-B' else '')
     rows.append('| %s | %s | %s | %s |' % (sid, det, short, meta['strengthening']))
